@@ -193,9 +193,12 @@ fn honest(rng: &mut Rng, size: usize, label: &str) -> Script {
 }
 
 /// symbols of the adversarial alphabet: produce the next message given the number of correct pieces delivered so far
-const FAULTS: [&str; 20] = [
+const FAULTS: [&str; 22] = [
   "ok", "wrong-index", "oversize", "empty-piece", "flip", "hdr-malformed", "hdr-unsorted", "hdr-extra-key", "reject", "request", "hs-again", "hs-no-size", "hs-no-ut", "keepalive", "choke",
   "unknown-ext", "empty-ext", "wrong-total", "short-nonfinal", "close",
+  // the extended handshake sent again in the middle of a fetch with another size: smaller than what has been received
+  // already, or larger than the dictionary (BEP 10 allows the handshake to be repeated; the later one replaces the earlier)
+  "hs-smaller", "hs-larger",
 ];
 
 fn adversarial(base: &[u8], seq: &[&str], hs_kind: &str) -> Script {
@@ -268,6 +271,8 @@ fn adversarial(base: &[u8], seq: &[&str], hs_kind: &str) -> Script {
       "reject" => inc.extend_from_slice(&ext(1, &B::dict(vec![("msg_type", B::Int(2)), ("piece", B::Int(k as i128))]).encode())),
       "request" => inc.extend_from_slice(&ext(1, &B::dict(vec![("msg_type", B::Int(0)), ("piece", B::Int(0))]).encode())),
       "hs-again" => inc.extend_from_slice(&ext_handshake(Some(9), Some(size), true)),
+      "hs-smaller" => inc.extend_from_slice(&ext_handshake(Some(1), Some(100), false)),
+      "hs-larger" => inc.extend_from_slice(&ext_handshake(Some(1), Some(size + 5000), false)),
       "hs-no-size" => inc.extend_from_slice(&ext_handshake(Some(1), None, false)),
       "hs-no-ut" => inc.extend_from_slice(&ext_handshake(None, Some(size), true)),
       "keepalive" => inc.extend_from_slice(&[0, 0, 0, 0]),
@@ -338,7 +343,7 @@ fn observe(s: &Script) -> Obs {
 pub fn run(ctx: &Ctx) -> Report {
   let mut report = Report::new(
     "simulated peers on loopback driven by byte scripts, real client through the hook `peer_fetch`: honest family (sizes 80..5x16384 incl. exact multiples, random TCP segmentation, extension ids 1..255, keep-alives and ordinary \
-     messages between every pair of frames, extra handshake keys); adversarial family: bounded-exhaustive enumeration of all message sequences up to length 2 (quick: + sampled length 3; thorough: all length 3 + sampled length 4) over 20 faults, \
+     messages between every pair of frames, extra handshake keys); adversarial family: bounded-exhaustive enumeration of all message sequences up to length 2 (quick: + sampled length 3; thorough: all length 3 + sampled length 4) over 22 faults, \
      plus TCP/extension handshake variants; end-to-end `imdl torrent from-link` against a simulated UDP tracker + peers; non-trivial = more than one piece or any fault; distinct by script hash",
   );
   report.rule.push_str("; ordinary messages up to 100 000 bytes and of other extensions (port, fast extension, v2 hash messages) between pieces; other capability bits in the handshake; a reactive peer that sends its extended handshake only after the client's; end to end: hybrid links (a v2 topic first), a tracker that misses the first datagram of each request, the announce sent by from-link judged like any other");
@@ -368,6 +373,12 @@ pub fn run(ctx: &Ctx) -> Report {
       } else {
         rng.shuffle(&mut l3);
         seqs.extend(l3.into_iter().take(700));
+      }
+      // the handshake repeated between two correct pieces, in each of its variants (always run, whatever the sample holds)
+      for f in ["hs-again", "hs-no-size", "hs-no-ut", "hs-smaller", "hs-larger"] {
+        seqs.push(vec!["ok", f, "ok"]);
+        seqs.push(vec![f, "ok", "ok"]);
+        seqs.push(vec!["ok", f, "ok", "ok"]);
       }
       for s in &seqs {
         v.push(adversarial(&base, s, "ok"));
